@@ -144,6 +144,18 @@ def _reservoirs(run, prog, ts):
         why = f"{len(ins)} insertions into the leaf reservoir"
     elif guard in ins[0][1].guards:
         why = "the point is only inserted when the reservoir was just created"
+    if ok:
+        # which observations are stored may depend on which features they carry (membership tests), not on
+        # the values: a truthiness / comparison test on a feature value drops observations (0, 0.0, False, '')
+        from .boolalg import literal
+        for g in ins[0][1].guards:
+            a, pol = literal(g)
+            presence = a[0] == "cmp" and (a[1] == "in" or (a[1] == "is" and a[3] == ("const", None)))
+            if not presence:
+                ok = False
+                why = f"the point is only inserted when {ir.show_nl(g)[:100]} (an observation whose value fails this test " \
+                      f"is neither learned nor stored)"
+                break
     run.check(ok, "RESERVOIR", "complete-point", f"{s.path}:{ins[0][0].line if ins else sev.line}", fq,
               f"insertion: {why or 'ok'}",
               f"every update must insert the complete observed point into the reservoir of its leaf: {why}",
